@@ -406,7 +406,7 @@ func init() {
 			func() ParamSet { p := defaultParams(); p.Multiple, p.Name = 4, "gov-multiple-4"; return p }()} {
 			sc := scBind(defaultParams(), nil, []Template{tSlash}, []string{"bad"}, d, b, m)
 			sc.Alpha = lifeAlpha(AlphaOpts{RespKinds: []string{"bad"}, ParamChanges: []ParamSet{g}, BindOps: []Action{
-				actBind("a", "P1", "O1", 10, "p1", 1), actBind("a", "P1", "O1", 40, "p20", 1),
+				actBind("a", "P1", "O1", 10, "p1", 1), actBind("a", "P1", "O1", 40, "p20", 1), actBind("a", "P2", "O2", 5, "p1", 1), // 5: below the global minimum, above price x multiple
 				actUpdate("a", "P1", "O1", 10, "", 0), actUpdate("a", "P1", "O1", 40, "", 0), actUpdate("a", "P1", "O1", 0, "", 2), actUpdate("a", "P1", "O1", 0, "p1", 0),
 				actDisable("a", "P1", "O1"), actEnable("a", "P1", "O1", 0), actEnable("a", "P1", "O1", 40)}})
 			sc.Name, sc.GovRaisesMinimum = "S-BIND("+g.Name+")", true
